@@ -189,6 +189,10 @@ func GenHistory(t *rapid.T, o GenOpts) []Op {
 			add(Op{Kind: "label", Label: lab})
 		}
 	}
+	if len(ops) > 0 && ops[0].Kind == "setbase" && len(m.Bytes) > 0 && rapid.IntRange(0, 3).Draw(t, "end-at-bank-end") == 0 {
+		// the program's last byte sits at $xx:FFFF
+		ops[0].V = ops[0].V&0xff0000 | uint32(0x10000-len(m.Bytes))&0xffff
+	}
 	return ops
 }
 
